@@ -132,7 +132,7 @@ def alphabet(spec: dict, tier: str, full: bool = False) -> t.List[tuple]:
     fail_nodes = names if not q else [names[0], names[len(names) // 2], names[-1]]
     for n in dict.fromkeys(fail_nodes):
         pl = dict(bases[-1])
-        pl[n] = (pl[n][:-1] if n in pl and pl[n][0] == 'next' else []) + ['raise:E1']
+        pl[n] = (pl[n][:-1] if n in pl and pl[n][0] in ('next', 'next0') else []) + ['raise:E1']
         out.append((f'fail-{n}', pl, {'x': 1}, 'first'))
     if 'oneof' in S.kinds_used(spec):
         for n, nd in spec['nodes'].items():
